@@ -47,15 +47,63 @@ def _sup_feat(draw, nmax):
     return {"t": "sup", "model": "sup", "mode": "feat", "nt": nt, "nu": 0, "nq": 0, "Y": Y, "X": X, "metric": name}
 
 
+@st.composite
+def _after_learn(draw, nmax):
+    base = draw(_sup_feat(nmax))
+    if base["metric"] == "hamming" or base["nt"] < 4:
+        base["metric"] = "euclidean"
+    K = max(base["Y"]) + 1
+    nv = draw(st.integers(K, K + 4))
+    dim = len(base["X"][0])
+    Xv = draw(st.lists(st.lists(st.integers(1, 200000).map(lambda k: k / 211.0), min_size=dim, max_size=dim), min_size=nv, max_size=nv))
+    base.update({"t": "sup_learn", "Xv": Xv, "Yv": draw(gen.labels(nv, K, K)), "n_iter": draw(st.integers(2, 5)), "seed": draw(st.integers(0, 2**31 - 1))})
+    return base
+
+
 def strategy(tier):
     nmax = 9 if tier == "quick" else 20
     sup_pre = supcase.sup_case(nmax=nmax, kinds=("sup",), modes=("pre",), wmode="tiefree").map(lambda c: dict(c, t="sup"))
     knn = knncase.knn_case(nmax=nmax, kinds=("knn",), kmax_force=True).map(lambda c: dict(c, t="knn"))
-    return st.one_of(_sup_feat(nmax), _sup_feat(nmax), _sup_feat(nmax), _sup_feat(nmax), sup_pre, knn, knn)
+    return st.one_of(_sup_feat(nmax), sup_pre, knn, _after_learn(nmax))
+
+
+def check_learned(case):
+    """the classifier that learn() leaves in the object has zero resubstitution error on ITS training set (tie-free premise verified)"""
+    np = models.np()
+    import math
+
+    name = case["metric"]
+    Xt = np.array(case["X"], dtype=float)
+    Yt = np.array(case["Y"], dtype=int)
+    Xv = np.array(case["Xv"], dtype=float)
+    Yv = np.array(case["Yv"], dtype=int)
+    if M.c08_domain(name) == "PROB":
+        Xv = Xv / Xv.sum(axis=1, keepdims=True)
+    if set(case["Yv"]) != set(range(max(case["Y"]) + 1)):
+        return Outcome.discard("validation_does_not_cover_classes")
+    m = libcall(models.classes()["sup"], distance=name)
+    np.random.seed(case["seed"] % (2**32))
+    libcall(m.learn, Xt, Yt, Xv, Yv, case["n_iter"])
+    Xn = [[float(v) for v in nd.features] for nd in m.subgraph.nodes]
+    Yn = [int(nd.label) for nd in m.subgraph.nodes]
+    if len(set(Yn)) < 2:
+        return Outcome.discard("single_class_after_swaps")
+    W = models.eval_matrix(name, Xn)
+    n = len(W)
+    off = [W[i][j] for i in range(n) for j in range(i + 1, n)]
+    fdiag = [W[i][i] for i in range(n) if math.isfinite(W[i][i])]
+    if (not all(math.isfinite(v) and v >= 0 for v in off) or any(W[i][j] != W[j][i] for i in range(n) for j in range(n))
+            or len(set(off)) != len(off) or (off and fdiag and min(off) <= max(abs(v) for v in fdiag))):
+        return Outcome.discard("premise:not_tie_free_after_learn")
+    preds = [int(v) for v in libcall(m.predict, np.array(Xn, dtype=float))]
+    require(preds == Yn, "supervised:predict_training_set_after_learn", lambda: "after learn() predict(training set held by the object)=%r, labels=%r (%s)" % (preds, Yn, name))
+    return Outcome.ok(nontrivial=True, classes=["sup_learn", "m:" + name])
 
 
 def check_case(case):
     np = models.np()
+    if case["t"] == "sup_learn":
+        return check_learned(case)
     if case["t"] == "sup":
         # the diagonal is NOT part of the discarding premise: a NaN self-distance of an eligible metric on in-domain data
         # is the library's defect (the table claims zero self-distance) and must surface through predict(X_train)
@@ -77,6 +125,9 @@ def check_case(case):
         s = r.state
         for i in range(n):
             require(s["predicted_label"][i] == case["Y"][i], "supervised:own_label_after_fit", lambda: "node %d assigned %r, true %r (%s; W=%r Y=%r)" % (i, s["predicted_label"][i], case["Y"][i], case.get("metric", "pre"), W, case["Y"]))
+        # helper calls between fit and predict must not disturb the classifier (raw, then min-max normalised distance matrix)
+        libcall(r.model.get_distances)
+        libcall(r.model.get_distances, True)
         if case["mode"] == "feat":
             Xtr = np.array(case["X"], dtype=float)
             preds = [int(v) for v in libcall(r.model.predict, Xtr)]
